@@ -448,7 +448,24 @@ def main(argv):
         if tier not in ('quick', 'thorough'):
             tier = os.environ.get('VERIF_TIER', 'quick')
         chk = Check(pid, tier, seed)
-        mod.run(chk)
+        try:
+            mod.run(chk)
+        except Exception as e:  # pylint: disable=broad-except
+            # An exception that escapes the harness is a machinery error (exit 2) UNLESS it was raised inside the
+            # implementation under test (innermost frames in the note_seq package): on the unchanged tree every
+            # stream runs to completion, so the implementation now raises where it did not - the correspondence
+            # can no longer be established.  Reported as a broken correspondence (with whatever the oracles
+            # found before), never silently as exit 2.
+            tb = traceback.extract_tb(e.__traceback__)
+            inner = [f for f in tb if os.sep + 'note_seq' + os.sep in f.filename and os.sep + 'harness' + os.sep not in f.filename]
+            if not inner or os.sep + 'note_seq' + os.sep not in tb[-1].filename and not any(
+                    os.sep + 'note_seq' + os.sep in f.filename for f in tb[-6:]):
+                raise
+            traceback.print_exc()
+            chk.broken.append('correspondence: the implementation raised %s: %s at %s:%d (%s) while the harness drove it on an '
+                              'input that runs to completion on the unchanged tree' % (
+                                  type(e).__name__, str(e)[:200], inner[-1].filename, inner[-1].lineno, inner[-1].name))
+            chk.notes['implementation_exception'] = ''.join(traceback.format_exception(type(e), e, e.__traceback__))[-3000:]
         return chk.finish()
     except Exception:
         traceback.print_exc()
